@@ -95,6 +95,9 @@ func CheckRegistryTrace(calls []RegCall) []Violation {
 			case s.creating > 0:
 				if c.Ref != 0 && !c.Err {
 					if s.early == 0 {
+						// every early reference is the product of the early-reference factory of
+						// THIS creation attempt (recorded just before, by "efx")
+						add("early-reference-not-from-this-attempt", c.Name, fmt.Sprintf("%q is in creation and its early-reference factory has not produced anything in this attempt, yet a lookup returned ref %d (a leftover of an earlier attempt)", c.Name, c.Ref), idx)
 						s.early = c.Ref
 					} else if c.Ref != s.early {
 						add("two-early-references", c.Name, fmt.Sprintf("while %q is in creation a lookup returned ref %d, an earlier one ref %d", c.Name, c.Ref, s.early), idx)
